@@ -390,10 +390,16 @@ IsCut(cx, e) == e.key.kk \in {"bare", "val"} \/ (e.key.kk = "type" /\ e.key.cut)
                 \/ (e.key.kk = "type" /\ e.key.t.k = "lit" /\ cx.fmt = "json" /\ "JsonArrowLiteralKeyCuts" \in cx.dev)
 \* RFC 8610 3.5.4: a cut commits to its entry as soon as the key matches.  An optional GROUP ('? (k: T)', '? g') whose cut member
 \* finds its key among the remaining pairs can therefore not be skipped: either it matches or the map does not.
-CutBlocks(cx, R, g, ps, left) ==
+RECURSIVE CutBlocksF(_,_,_,_,_,_)
+CutBlocksF(cx, R, g, ps, left, fuel) ==
   \E j \in 1..Len(g.galts) : \E i \in 1..Len(g.galts[j]) :
      LET x == g.galts[j][i] IN
-     x.k = "ent" /\ x.key.kk # "none" /\ IsCut(cx, x) /\ \E p \in left : M1(cx, R, KeyType(x), ps[p].key, {})
+     IF x.k = "ent" THEN x.key.kk # "none" /\ IsCut(cx, x) /\ \E p \in left : M1(cx, R, KeyType(x), ps[p].key, {})
+     ELSE IF fuel = 0 THEN FALSE
+     ELSE IF x.k = "sub" THEN CutBlocksF(cx, R, x.g, ps, left, fuel - 1)
+     ELSE IF x.k = "name" /\ IsGroupRule(R, x.n) THEN CutBlocksF(cx, R, InstGroup(R, x.n, x.args), ps, left, fuel - 1)
+     ELSE FALSE
+CutBlocks(cx, R, g, ps, left) == CutBlocksF(cx, R, g, ps, left, 3)
 MapGroup(cx, R, g, ps, lefts) == UNION {MapSeq(cx, R, g.galts[j], 1, ps, lefts) : j \in 1..Len(g.galts)}
 MapSeq(cx, R, es, i, ps, lefts) ==
   IF i > Len(es) \/ lefts = {} THEN lefts
